@@ -373,3 +373,48 @@ pub fn metadata_text(txn_set: &TxnSet<'_>, settings: &Settings) -> Option<String
         .metadata()
         .map(|md| md.text(settings.report.report_tz.clone()))
 }
+
+/// The effective settings (after the command-line overlaps were applied), key by key
+pub fn settings_json(s: &Settings) -> String {
+    let sv = |v: &Vec<String>| -> String {
+        let x: Vec<String> = v.iter().map(|i| js(i)).collect();
+        format!("[{}]", x.join(","))
+    };
+    let reports: Vec<String> = s
+        .get_report_targets()
+        .iter()
+        .map(|r| js(&format!("{r:?}")))
+        .collect();
+    let exports: Vec<String> = s
+        .get_export_targets()
+        .iter()
+        .map(|r| js(&format!("{r:?}")))
+        .collect();
+    let lookup = match s.get_price_lookup() {
+        crate::kernel::price_lookup::PriceLookup::None => "{\"type\":\"none\"}".to_string(),
+        crate::kernel::price_lookup::PriceLookup::AtTheTimeOfTxn => {
+            "{\"type\":\"txn-time\"}".to_string()
+        }
+        crate::kernel::price_lookup::PriceLookup::LastPriceDbEntry => {
+            "{\"type\":\"last-price\"}".to_string()
+        }
+        crate::kernel::price_lookup::PriceLookup::GivenTime(t) => {
+            format!("{{\"type\":\"given-time\",\"ts\":{}}}", jts(&t))
+        }
+    };
+    format!(
+        "{{\"strict\":{},\"audit\":{},\"reports\":[{}],\"exports\":[{}],\"commodity\":{},\"lookup\":{},\"group_by\":{},\"ras_balance\":{},\"ras_balgrp\":{},\"ras_register\":{},\"ras_equity\":{},\"pricedb_len\":{}}}",
+        s.strict_mode(),
+        s.audit_mode,
+        reports.join(","),
+        exports.join(","),
+        jopt(s.get_report_commodity().as_ref().map(|c| c.name.as_str())),
+        lookup,
+        js(&format!("{:?}", s.report.balance_group.group_by)),
+        sv(&s.get_balance_ras()),
+        sv(&s.get_balance_group_ras()),
+        sv(&s.get_register_ras()),
+        sv(&s.get_equity_ras()),
+        s.price.price_db.len()
+    )
+}
